@@ -191,6 +191,60 @@ def work(n):
 '''
 
 
+def own_frames_leg(c, wd):
+    """The agent runs code of its own on threads that are traced like any other (its delivery workers, its poll thread).
+    A tracepoint that names a file and line of the AGENT's code - the application has no such file, but many projects have
+    an `__init__.py`, a `utils.py` ... with enough lines - matches nothing of the program: it must never act."""
+    import inspect
+    import threading
+    import time
+    from .. import lifecycle_drv as LD
+    import deep.push.push_service as ps_mod
+    src, first = inspect.getsourcelines(ps_mod.PushService._push_task)
+    line = first + 1                  # the first statement of the delivery task, run on a worker thread
+    out = {}
+
+    def body():
+        sysm = LD.LifeSystem(wd, False, 'None', 'None')
+        problems = []
+        try:
+            sysm.start()
+            t0 = time.time()
+            while sysm.deep.task_handler._pending and time.time() - t0 < 5:
+                time.sleep(0.005)
+            own = sysm.deep.register_tracepoint('push_service.py', line, {'log_msg': 'inside the agent'}, [])
+            t0 = time.time()
+            while sysm.deep.task_handler._pending and time.time() - t0 < 5:
+                time.sleep(0.005)
+            del sysm.plugins[0].calls[:]
+            res = sysm.mod.beat(1)            # a hit of the application's line: a snapshot is delivered by a worker thread
+            t0 = time.time()
+            while (sysm.deep.task_handler._pending or not sysm.sent) and time.time() - t0 < 5:
+                time.sleep(0.005)
+            time.sleep(0.2)
+            logs = [c_[1] for c_ in sysm.plugins[0].calls if c_[0] == 'log']
+            if res != 2:
+                problems.append('host result %r' % (res,))
+            if any('inside the agent' in m for m in logs):
+                problems.append('a tracepoint naming push_service.py#%d acted inside the agent\'s own delivery task (%d '
+                                'log line(s))' % (line, sum(1 for m in logs if 'inside the agent' in m)))
+            own.unregister()
+            sysm.deep.shutdown()
+        finally:
+            sysm.close()
+        out['problems'] = problems
+    th = threading.Thread(target=body)
+    th.start()
+    th.join(60)
+    if 'problems' not in out:
+        raise tlc.MachineryError('own-frames case did not finish (the agent may have dead-locked on its own frames)')
+    c.traces_validated += 1
+    c.note_case(key=('own-frames',), nontrivial=True)
+    if out['problems']:
+        p_ = c.save_replay({'kind': 'own-frames', 'problems': out['problems']})
+        c.violation('a tracepoint whose file and line exist only in the agent\'s own code: %s' % out['problems'], p_)
+
+
 def registration_race_leg(c, wd, max_preemptions, max_runs):
     """Only tracepoints registered in code (the service has sent nothing): one of them is unregistered by another thread
     while an event that matches the OTHERS is being dispatched - they act on every hit of their lines all the same."""
@@ -374,6 +428,7 @@ def run(c):
     traces, meta = run_scenarios(c, rng, wd, 60 if quick else 1500, 0.2, 'placement', 'p', curated=same_name)
     reconfig_race_leg(c, wd, 1 if quick else 2, 600 if quick else 4000)      # (quick: every schedule with one forced switch)
     registration_race_leg(c, wd, 1 if quick else 2, 400 if quick else 4000)
+    own_frames_leg(c, wd)
     validate(c, traces, meta, lambda m: m['firings'] >= 3, ideal=True)
     c.extra['events_judged'] = sum(m['events'] for m in meta)
     c.extra['firings'] = sum(m['firings'] for m in meta)
